@@ -86,6 +86,12 @@ PROPS["C13"] = {
         # here only on "the heads found are the greatest timestamps of the records found"
         {"name": "storetx-heads", "cmd": "storetx", "args": {"n": {"quick": 8, "thorough": 200}},
          "trace_module": "StoreTxTrace", "trace_consts": dict(ENTRY, Prop='"C13"'), "tv_timeout": 3000, "timeout": 7200},
+        # news detection as the live engine asks for it: has_news_for_us through the real store actor with reports of 1-3 authors
+        # (one unknown to the store) between local / remote writes, drops and re-creations
+        {"name": "actor-news", "cmd": "actor", "args": {"n": {"quick": 80, "thorough": 3000}},
+         "trace_module": "ActorTrace",
+         "trace_consts": dict(ENTRY, OpenCounts="TRUE", SyncSticky="TRUE", GateSync="TRUE", GateOpen="TRUE", Prop='"C13"'),
+         "tv_timeout": 3000},
     ],
 }
 
@@ -276,7 +282,13 @@ PROPS["C15"] = {
     "sensitivity": [{"base": "docs-quick", "flip": {"RemoveClearsSettings": "FALSE"}}],
     "drives": [docs_drive("C15"),
                {"name": "replica-c15", "cmd": "replica", "args": {"profile": "all", "n": {"quick": 200, "thorough": 5000}},
-                "trace_module": "ReplicaTrace", "trace_consts": dict(RANGER, Prop='"C15"')}],
+                "trace_module": "ReplicaTrace", "trace_consts": dict(RANGER, Prop='"C15"')},
+               # the policy as the rest of the system sets and reads it: set / get through the real store actor (no open document asked
+               # for), documents dropped and re-created in between, and the download flag of the events of remote inserts served after a change
+               {"name": "actor-policy", "cmd": "actor", "args": {"n": {"quick": 80, "thorough": 3000}},
+                "trace_module": "ActorTrace",
+                "trace_consts": dict(ENTRY, OpenCounts="TRUE", SyncSticky="TRUE", GateSync="TRUE", GateOpen="TRUE", Prop='"C15"'),
+                "tv_timeout": 3000}],
 }
 PROPS["C16"] = {
     "level": "model_checking",
@@ -297,7 +309,12 @@ PROPS["C16"] = {
                {"name": "storetx-remove", "cmd": "storetx", "args": {"n": {"quick": 40, "thorough": 1200}, "focus": 1},
                 "trace_module": "StoreTxTrace", "trace_consts": dict(ENTRY, Prop='"C16"'), "tv_timeout": 3000, "timeout": 7200},
                {"name": "protect", "cmd": "protect", "args": {"n": {"quick": 40, "thorough": 1500}},
-                "trace_module": "ProtectTrace", "trace_consts": {}, "tv_timeout": 1800}],
+                "trace_module": "ProtectTrace", "trace_consts": {}, "tv_timeout": 1800},
+               # the hash list and the policy of a dropped document as served by the real store actor between writes, drops and re-creations
+               {"name": "actor-hashes", "cmd": "actor", "args": {"n": {"quick": 80, "thorough": 3000}},
+                "trace_module": "ActorTrace",
+                "trace_consts": dict(ENTRY, OpenCounts="TRUE", SyncSticky="TRUE", GateSync="TRUE", GateOpen="TRUE", Prop='"C16"'),
+                "tv_timeout": 3000}],
 }
 PROPS["C17"] = {
     "level": "model_checking",
